@@ -251,6 +251,14 @@ def _scenarios():
             (d / "link.rtdc").symlink_to(ins[0])
             return fn(path_in=ins[0], path_out=d / "link.rtdc")
         S[tname + ":alias-symlink"] = Scenario(tname, one_in, _call_link, lambda d: [])
+        def _build_dangling(d):
+            # the temporary name is a symbolic link to the (not yet existing) output
+            ins = one_in(d)
+            (d / "out.rtdc~").symlink_to(d / "out.rtdc")
+            return ins
+        S[tname + ":dangling-temp-link"] = Scenario(
+            tname, _build_dangling, (lambda fn: lambda d, ins: fn(path_in=ins[0], path_out=d / "out.rtdc"))(fn),
+            lambda d: [d / "out.rtdc"])
         S[tname + ":alias-temp"] = Scenario(
             tname, lambda d: [make_rtdc(d / "x.rtdc~")],
             (lambda fn: lambda d, ins: fn(path_in=ins[0], path_out=d / "x.rtdc", check_suffix=False))(fn),
@@ -265,6 +273,14 @@ def _scenarios():
                                           make_rtdc(d / "b.rtdc", n=3, seed=2, run_index=2, time="12:00:05")],
                                lambda d, ins: cli.join(paths_in=list(ins), path_out=ins[1]),
                                lambda d: [])
+    def _build_split_stale(d):
+        ins = one_in(d, n=7)
+        (d / "parts").mkdir(exist_ok=True)
+        make_rtdc(d / "parts" / "in_0002.rtdc~", n=2, seed=9)      # left behind by an interrupted run
+        return ins
+    S["split:stale-temp"] = Scenario("split", _build_split_stale,
+                                     lambda d, ins: cli.split(path_in=ins[0], path_out=d / "parts", split_events=3),
+                                     lambda d: [d / "parts" / f"in_{i:04d}.rtdc" for i in (1, 2, 3)])
     S["split"] = Scenario("split", lambda d: one_in(d, n=7),
                           lambda d, ins: cli.split(path_in=ins[0], path_out=d / "parts", split_events=3),
                           lambda d: [d / "parts" / f"in_{i:04d}.rtdc" for i in (1, 2, 3)])
